@@ -25,7 +25,9 @@ RULE = ("TLC (GEN_SpatialIndex_[a-f].cfg) emits 12 lanelet families (disjoint, e
         "L-shaped, parallelogram, curved/multi-vertex, four cells around a corner, corner contact, mixed) x every route "
         "sequence of length <= 2 (quick; <= 3 thorough) over builders {from_list(cleanup 0/1), add_each, add_defer, "
         "add_from_network, scenario_add} and follow-ups {deepcopy, deepcopy_orig, pickle, xml, pb, xml_net, pb_net, "
-        "from_network(4 cut shapes), remove(id), translate_rotate(4 lattice motions)}; per family the query points are the "
+        "from_network(4 cut shapes), remove(id), translate_rotate(4 lattice motions), add_extra(rtree 1/0), add_extra_net, "
+        "remove_nortree(id)}; after a DEFERRED step (rtree=False) on a from_list(0) network one more step is always explored, "
+        "so every 'deferred step, then each rebuilding operation, then queries' sequence is executed; per family the query points are the "
         "17 x 13 doubled lattice (lattice points, edge mid points, cell centres) + 3 far points grouped by TLC into position "
         "classes, and query shapes of 5 kinds (axis rectangles, quarter-turn rectangles, 3-4-5 rectangles, discs, polygons) "
         "classified by TLC (inside / overlapping / reaching / touching(-edge/-corner) / disjoint), PerClass kept per class; "
@@ -74,8 +76,8 @@ def model_check(ctx):
         gen = [ex.submit(_run_gen, c) for c in _gen_cfgs(ctx)]
         mc = [ex.submit(tlc.model_check, "MC_SpatialIndex", cfg, tag(cfg), coverage=True, workers=w) for cfg, w in mcs]
         dev = [ex.submit(tlc.expect_violation, "MC_SpatialIndex", "DEV_SpatialIndex_%d.cfg" % i,
-                         tag("DEV_SpatialIndex_%d.cfg" % i), "IndexMirrors" if i < 6 else "QueriesExact", workers=1)
-               for i in range(1, 7)]                                      # 6 = DEV_DiscHalfRadius (the recorded circle finding)
+                         tag("DEV_SpatialIndex_%d.cfg" % i), "IndexMirrors" if i != 6 else "QueriesExact", workers=1)
+               for i in (1, 2, 3, 4, 5, 7, 6)]    # 7 = DEV_DeferredRemoveKeepsPolygon (seed C06-2); 6 = DEV_DiscHalfRadius (known finding)
         for f in mc:
             ctx._acc(f.result(), "holds")
         for f in dev:
@@ -99,25 +101,28 @@ def cases(ctx):
             _GEN[c] = _run_gen(c)[1]
     raw = [c for cfg in _gen_cfgs(ctx) if "_deep_" not in cfg for c in _GEN[cfg]]
     fams = {c["fam"]: c for c in raw if c["kind"] == "family"}
-    raw += [c for cfg in _gen_cfgs(ctx) if "_deep_" in cfg for c in _GEN[cfg]         # thorough: only the sequences of length 3
-            if c["kind"] == "route" and len(c["routes"]) == 3]
+    have = {(c["fam"], json_key(c["routes"])) for c in raw if c["kind"] == "route"}
+    raw += [c for cfg in _gen_cfgs(ctx) if "_deep_" in cfg for c in _GEN[cfg]         # thorough: only the longer sequences
+            if c["kind"] == "route" and len(c["routes"]) >= 3 and (c["fam"], json_key(c["routes"])) not in have]
     out = []
     for c in raw:
         if c["kind"] == "route":
             f = fams[c["fam"]]
             full = len(c["routes"]) == 1
             shapes = f["shapes"]
-            if len(c["routes"]) == 3 or (not full and not ctx.thorough):  # longer sequences: one shape per (kind, class)
+            if len(c["routes"]) >= 3 or (not full and not ctx.thorough):  # longer sequences: one shape per (kind, class)
                 seen, shapes = set(), []
                 for s in f["shapes"]:
                     if (s["kind"], s["cls"]) not in seen:
                         seen.add((s["kind"], s["cls"]))
                         shapes.append(s)
+            if len(c["routes"]) >= 3 and not ctx.thorough:               # deferred step + one more: axis rectangles and polygons
+                shapes = [q for q in shapes if q["kind"] in ("rect0", "poly")]
             points = f["points"]
             if not full and not ctx.thorough:                            # ... and every third of the many points outside
                 points = [dict(g, pts=g["pts"][::3]) if g["cls"] == "outside" else g for g in points]
             out.append({"kind": "net", "fam": c["fam"], "lanelets": f["lanelets"], "net": f["net"], "routes": c["routes"],
-                        "cuts": f["cuts"], "points": points, "shapes": shapes, "src": "tlc",
+                        "cuts": f["cuts"], "extra": f["extra"], "points": points, "shapes": shapes, "src": "tlc",
                         "obstacles": f["obstacles"] if full or (ctx.thorough and len(c["routes"]) == 2) else [],
                         "xpolys": c["polys"]})
         elif c["kind"] == "shape":
@@ -154,6 +159,7 @@ def _random_cases(ctx, fams):
     for b in builders:                                                    # networks without lanelets
         for f in (None, "deepcopy", "pickle", "xml", "pb", "xml_net", "pb_net"):
             out.append({"kind": "net", "fam": "empty", "lanelets": [], "net": [], "cuts": any_f["cuts"], "obstacles": [],
+                        "extra": any_f["extra"],
                         "routes": [dict(zip(("r", "a"), b))] + ([{"r": f, "a": []}] if f else []),
                         "points": any_f["points"][:2], "shapes": any_f["shapes"][:3], "src": "fixed"})
     for _ in range(1500 if ctx.thorough else 150):
@@ -169,13 +175,19 @@ def _random_cases(ctx, fams):
             lls.append({"id": 21 + i, "r": right, "l": left})
             net.append({"id": 21 + i, "v": [[2 * x, 2 * y] for x, y in right + left[::-1]]})
         routes = [dict(zip(("r", "a"), rng.choice(builders)))]
-        for _ in range(rng.randint(0, 2)):
-            r = rng.choice(["deepcopy", "deepcopy_orig", "pickle", "xml", "pb", "xml_net", "pb_net", "remove", "translate_rotate"])
+        for _ in range(rng.randint(0, 3)):
+            r = rng.choice(["deepcopy", "deepcopy_orig", "pickle", "xml", "pb", "xml_net", "pb_net", "remove", "translate_rotate",
+                            "remove_nortree", "remove_nortree", "add_extra", "add_extra_net"])
             a = []
-            if r == "remove":
-                if n - sum(1 for q in routes if q["r"] == "remove") < 2:
+            if r in ("add_extra", "add_extra_net"):
+                if any(q["r"] in ("add_extra", "add_extra_net") for q in routes):
                     continue
-                a = [rng.choice([q["id"] for q in lls if q["id"] not in [z["a"][0] for z in routes if z["r"] == "remove"]])]
+                a = [rng.randint(0, 1)] if r == "add_extra" else []
+            if r in ("remove", "remove_nortree"):
+                gone = [z["a"][0] for z in routes if z["r"] in ("remove", "remove_nortree")]
+                if n - len(gone) < 2:
+                    continue
+                a = [rng.choice([q["id"] for q in lls if q["id"] not in gone])]
             if r == "translate_rotate":
                 a = [2 * rng.randint(-3, 3), 2 * rng.randint(-3, 3), rng.randint(0, 3)]
             routes.append({"r": r, "a": a})
@@ -194,6 +206,7 @@ def _random_cases(ctx, fams):
                 s = {"k": "rect", "c": c, "l": rng.randint(1, 4), "w": rng.randint(1, 3), "rot": rot}
             shapes.append({"kind": kind, "cls": "random", "shape": s})
         out.append({"kind": "net", "fam": "random", "lanelets": lls, "net": net, "routes": routes, "cuts": any_f["cuts"],
+                    "extra": any_f["extra"],
                     "points": [{"cls": "random", "pts": pts}], "shapes": shapes, "obstacles": any_f["obstacles"],
                     "src": "random"})
     return out
@@ -405,7 +418,7 @@ def _build(route, lanelets):
     return net
 
 
-def _follow(route, net, obstacles, cuts):
+def _follow(route, net, obstacles, cuts, extra):
     import numpy as np
     from commonroad.scenario.lanelet import LaneletNetwork
     r, a = route["r"], route["a"]
@@ -424,6 +437,15 @@ def _follow(route, net, obstacles, cuts):
         return LaneletNetwork.create_from_lanelet_network(net, shape_input=g_shape(cuts[a[0] - 1])), obstacles
     if r == "remove":
         net.remove_lanelet(a[0])
+        return net, obstacles
+    if r == "remove_nortree":                                             # deferred: the index is rebuilt by a LATER operation
+        net.remove_lanelet(a[0], rtree=False)
+        return net, obstacles
+    if r == "add_extra":
+        net.add_lanelet(g_lanelets([extra])[0], rtree=bool(a[0]))
+        return net, obstacles
+    if r == "add_extra_net":
+        net.add_lanelets_from_network(LaneletNetwork.create_from_lanelet_list(g_lanelets([extra])))
         return net, obstacles
     if r == "translate_rotate":
         net.translate_rotate(np.array([a[0] / 2.0, a[1] / 2.0]), 0.0 if a[2] % 4 == 0 else (a[2] % 4) * math.pi / 2)
@@ -453,7 +475,7 @@ def _exec_net(case):
             if i == 0:
                 net = _build(rt, g_lanelets(case["lanelets"]))
             else:
-                net, obstacles = _follow(rt, net, obstacles, case["cuts"])
+                net, obstacles = _follow(rt, net, obstacles, case["cuts"], case["extra"])
             e["polys"] = a_net(net)
         except MachineryError:
             raise
@@ -495,7 +517,7 @@ def _exec_net(case):
         except Exception as ex:
             e["exc"] = _exc(ex)
         ev.append(e)
-    for la in sorted(net.lanelets, key=lambda q: q.lanelet_id):
+    for la in sorted(net.lanelets, key=lambda q: q.lanelet_id) if len(routes) < 3 or case["obstacles"] else []:
         e = dict(common, op="contains_points", lid=int(la.lanelet_id), pts=all_pts, res=[], exc="",
                  sig="contains_points/route=%s" % last)
         try:
